@@ -188,7 +188,13 @@ def run(ctx):
     go2 = run_go(stage2) if stage2 else []
     allc, allg = cases + stage2, go + go2
     trc = [(c, g) for c, g in zip(allc, allg) if c["f"] not in rej]
-    coq = eval_in_coq([c for c, _ in trc]) if trc else []
+    try:
+        coq = eval_in_coq([c for c, _ in trc]) if trc else []
+    except hv.EnvError as e:
+        # the generated file does not compile (the proof step reports that as a broken obligation): the compiled
+        # functions are still judged by the oracle below
+        ctx.note("golite_coq_evaluation_failed", str(e)[:400])
+        trc, coq = [], []
     ctx.bump("golite_cases", None, len(allc))
     bad_tr = 0
     for (c, g), q in zip(trc, coq):
